@@ -31,6 +31,7 @@ type c13X struct {
 	Expect        []string    // expected codes/classes of all replies after the RCPTs up to (excluding) the finals, e.g. "354", "250", "E" (error, single)
 	After         []string    // expected after the finals
 	Prelude       int         // an earlier transaction on the same connection, with other recipients: 0 none, 1 RSET after the recipients, 2 first BDAT refused for its size, 3 BDAT with a bad LAST token then RSET, 4 completed with DATA, 5 completed with BDAT LAST
+	Stall         bool        // DATA: the client falls silent inside the message until ReadTimeout strikes; it keeps listening
 	Pre           int
 }
 
@@ -300,6 +301,17 @@ func genC13(t *Tape, tier string) *Scenario {
 		steps = append(steps, Step{Kind: kData, Data: []byte("DATA\r\n"), Wait: 1},
 			Step{Kind: kBody, Data: stream, Need: 354, Segs: drawSegs(t, len(stream), nil), Wait: -1 * w()})
 		x.Expect = []string{"354"}
+		if mode == 0 && t.Chance(1, 8) {
+			// fault stratum: the message never ends (the client falls silent past ReadTimeout but
+			// keeps listening): every accepted recipient still gets its reply - none of them
+			// positive unless the backend said so itself - and then the connection ends
+			x.Stall = true
+			sc.Srv.ReadTO = 10 * time.Minute
+			b := &steps[len(steps)-1]
+			b.Data = stream[:1+t.Intn(len(stream)-4)]
+			b.Segs, b.Wait = nil, -1
+			lock = true
+		}
 	} else {
 		off, sum := 0, 0
 		failed := false
@@ -345,6 +357,9 @@ func genC13(t *Tape, tier string) *Scenario {
 	}
 	cs := ConnScript{Lat: drawLat(t), SrvCaps: drawCaps(t), Steps: steps}
 	cs.defaults()
+	if x.Stall {
+		cs.AwaitTO = 15 * time.Minute // the client outwaits the server's ReadTimeout
+	}
 	sc.Conns = []ConnScript{cs}
 	sc.Strata = []string{fmt.Sprintf("flavor%d/bdat%v/mode%d", x.Flavor, x.ViaBdat, mode)}
 	return sc
@@ -363,6 +378,28 @@ func checkC13(sc *Scenario, h *History) []Violation {
 	}
 	if x.OutOfContract {
 		return out // only "no deadlock, no crash" is judged
+	}
+	if x.Stall {
+		replies, _ := parseReplies(ch.S2C.Buf)
+		fin := replies[minInt(len(replies), x.Pre+1):]
+		var codes []string
+		for _, r := range fin {
+			codes = append(codes, fmt.Sprint(r.Code))
+		}
+		if len(fin) < len(x.Accepted) {
+			out = append(out, Violation{Rule: "C13.reply-count", Detail: fmt.Sprintf("the message never ended (read timeout inside DATA): %d accepted recipients, %d replies: %s", len(x.Accepted), len(fin), strings.Join(codes, " ")), Witness: wit})
+			return out
+		}
+		for i := range x.Accepted {
+			if fin[i].Code/100 == 2 && !(i < len(x.Final) && x.Final[i].Code == 250 && x.Final[i].Token != "OK: queued") && !explicitOK(sc, x.Accepted, i) {
+				out = append(out, Violation{Rule: "C13.incomplete-positive", Detail: fmt.Sprintf("the message never ended but recipient %d (<%s>) got %s", i, x.Accepted[i], fin[i]), Witness: wit})
+				break
+			}
+		}
+		if ch.SrvCloseSeq < 0 {
+			out = append(out, Violation{Rule: "C13.panic-open", Detail: "the connection was not closed after the message could not be read to its end", Witness: wit})
+		}
+		return out
 	}
 	replies, _ := parseReplies(ch.S2C.Buf)
 	var codes []string
@@ -489,6 +526,28 @@ func checkC13(sc *Scenario, h *History) []Violation {
 	return out
 }
 
+// explicitOK tells whether the backend's plan sets an explicit success status for the
+// i-th accepted recipient (statuses of one address go to its occurrences in order).
+func explicitOK(sc *Scenario, accepted []string, i int) bool {
+	dp := sc.BE.Conns[0].Data[len(sc.BE.Conns[0].Data)-1]
+	occ := 0
+	for k := 0; k < i; k++ {
+		if accepted[k] == accepted[i] {
+			occ++
+		}
+	}
+	n := 0
+	for _, st := range dp.Statuses {
+		if st.Addr == accepted[i] {
+			if n == occ {
+				return st.V.Kind == vOK
+			}
+			n++
+		}
+	}
+	return false
+}
+
 func classifyC13(sc *Scenario, h *History, st *Stats) string {
 	x := sc.X.(*c13X)
 	dup := false
@@ -513,6 +572,9 @@ func classifyC13(sc *Scenario, h *History, st *Stats) string {
 	}
 	if x.EarlyOK {
 		st.Probes["backend_returns_nil_early"]++
+	}
+	if x.Stall {
+		st.Faults["read_timeout_inside_LMTP_DATA_peer_keeps_listening"]++
 	}
 	if x.Prelude > 0 {
 		st.Probes["earlier_transaction_"+[]string{"", "ended_by_RSET", "BDAT_refused_for_size", "BDAT_malformed_then_RSET", "completed_with_DATA", "completed_with_BDAT"}[x.Prelude]]++
@@ -564,7 +626,7 @@ func init() {
 		Real:        []string{"smtp.Server.Serve/handleConn", "smtp.Conn handleDataLMTP, handleBdat (LMTP), statusCollector, delivery goroutines, panic recovery", "io.Pipe", "net/textproto", "bufio"},
 		Stub:        []string{"net.Listener (SimListener)", "net.Conn (SimConn)", "Backend/LMTPSession/StatusCollector caller (SimBackend)", "clock (synctest)", "LMTP client (raw driver)"},
 		Assumptions: []string{"statuses a backend set explicitly before it panicked are honoured; the others must not be 2xx", "out-of-contract backends are judged only for no deadlock / no crash"},
-		Required:    []string{"backend_fails_early_during_LAST_chunk", "backend_returns_nil_early", "backend_panic_logged_to_slow_sink", "duplicate_recipient", "out_of_contract_backend", "rejected_rcpt_interleaved", "backend_panic", "earlier_transaction_BDAT_refused_for_size", "earlier_transaction_BDAT_malformed_then_RSET", "earlier_transaction_completed_with_BDAT"},
+		Required:    []string{"backend_fails_early_during_LAST_chunk", "backend_returns_nil_early", "backend_panic_logged_to_slow_sink", "duplicate_recipient", "out_of_contract_backend", "rejected_rcpt_interleaved", "backend_panic", "earlier_transaction_BDAT_refused_for_size", "earlier_transaction_BDAT_malformed_then_RSET", "earlier_transaction_completed_with_BDAT", "read_timeout_inside_LMTP_DATA_peer_keeps_listening"},
 		QuickRuns:   200000, ThoroughRuns: 4000000,
 	})
 }
